@@ -17,7 +17,7 @@ pub fn meta() -> Meta {
     Meta {
         id: "C14",
         level: "exploration",
-        rule: "forged unambiguous tables through the real generic_modes::distance (the function behind `ska distance`, threads=1), output lines compared byte for byte with the model's integers rendered with the same formatting: every multiset of <=3 rows over {A,C,G,-}^n (n=2,3; n=4 with <=2 rows in the quick tier, 3 in thorough), x every threshold 0..n x {default, --allow-ambiguous}; every sample permutation for tables of <=2 rows; n=5..12 with 'j copies of x, rest y' rows; planted-SNP genomes end to end through the CLI; large three-sample tables of 65537 and 131073 rows (thorough: 65535, 65536, 65537, 100000, 131073, 300000) cycling through variable, gapped and constant rows, in-process and through the CLI with 1 and 4 threads. Also asserted directly: identical samples at 0/0, each unordered pair exactly once in input order, proportion in [0,1]. Non-trivial = (table, threshold, flag) triple; distinct outcomes = distinct expected outputs.".into(),
+        rule: "forged unambiguous tables through the real generic_modes::distance (the function behind `ska distance`, threads=1), output lines compared byte for byte with the model's integers rendered with the same formatting: every multiset of <=3 rows over {A,C,G,-}^n (n=2,3; n=4 with <=2 rows in the quick tier, 3 in thorough), x every threshold 0..n x {default, --allow-ambiguous}; every sample permutation for tables of <=2 rows; n=5..12 with 'j copies of x, rest y' rows; planted-SNP genomes end to end through the CLI; three-sample tables of every row count 1..260 (thorough 1..2100); large three-sample tables of 65537 and 131073 rows (thorough: 65535, 65536, 65537, 100000, 131073, 300000) cycling through variable, gapped and constant rows, in-process and through the CLI with 1 and 4 threads. Also asserted directly: identical samples at 0/0, each unordered pair exactly once in input order, proportion in [0,1]. Non-trivial = (table, threshold, flag) triple; distinct outcomes = distinct expected outputs.".into(),
         assumptions: vec!["frequencies (t-1/2)/n so that ceil(f*n)=t robustly; threshold 0 and 1 both mean 'no frequency filter' in the statement (a stored k-mer is in >=1 sample)".into()],
         exhaustive_when_uncapped: true,
     }
@@ -236,6 +236,37 @@ pub fn run(ctx: &Ctx, rep: &mut Report) {
             }
         }
         rep.completed.push("CLI planted-SNP genomes".into());
+    }
+    // every number of rows from 1 to 260 (thorough 2100): rows cycle through shared-and-different, shared-and-equal-
+    // but-variable (third sample differs), one-sided and gapped patterns, so that row counts at and around 64, 128,
+    // 256, ... occur with every kind of last row
+    if !capped {
+        let patterns: [&[u8; 3]; 6] = [b"ACA", b"AAC", b"A-C", b"-AC", b"CAG", b"GG-"];
+        let maxrows = if thorough { 2100usize } else { 260 };
+        for nrows in 1..=maxrows {
+            idx += 1;
+            if !ctx.mine(idx) {
+                continue;
+            }
+            for shift in 0..2usize {
+                let mut rows = BTreeMap::new();
+                for i in 0..nrows {
+                    rows.insert(String::from_utf8(nth_string(b"ACGT", 8, (i as u64 * 911) % 65_536)).unwrap(), patterns[(i + shift * 3) % 6].to_vec());
+                }
+                let t = Table { k: 9, rc: true, names: vec!["s0".into(), "s1".into(), "s2".into()], rows };
+                for (thr, aa) in [(0usize, false), (2, true)] {
+                    rep.evaluations += 1;
+                    rep.nontrivial += 1;
+                    if let Err(e) = check_one(&t, thr, aa) {
+                        rep.violate(format!("row count {nrows} shift={shift} thr={thr} aa={aa}"), format!("{nrows} rows, threshold {thr}, allow-ambiguous={aa}: {e}"), json!({"nrows": nrows, "shift": shift, "thr": thr, "aa": aa}));
+                    }
+                }
+            }
+            if nrows % 64 == 0 {
+                rep.corner("row_count_multiple_of_64");
+            }
+        }
+        rep.completed.push("every row count".into());
     }
     // large tables (more rows than any plausible work-sharing block: 2^16 and 2^17 rows and their neighbours), three
     // samples, rows cycling through variable, gapped and constant patterns; in-process and, for one size, through the
